@@ -742,9 +742,16 @@ def _clamps(ctx: Ctx) -> None:
         ok = bool(rets)
         for r in rets:
             ok = ok and _is_unit_clamp(repo, fi, r.value)
+        why = ""
+        if not ok:
+            # clamping written with comparisons: decide path by path that
+            # the returned value is a constant in [0, 1] or is bounded by
+            # the tests on its path
+            ok, why = _unit_by_paths(repo, fi)
         ctx.ob("D17.4", fi, rets[0] if rets else fi.node, ok,
-               f"{cls}.evaluate returns max(0, min(1, .)) on every path"
-               if ok else f"{cls}.evaluate can return an unclamped value",
+               f"{cls}.evaluate returns a value clamped to [0, 1] on every "
+               "path" if ok else
+               f"{cls}.evaluate can return an unclamped value{why}",
                construct=f"{cls} clamp")
         for meth, want in (("lower_bound", 0.0), ("upper_bound", 1.0)):
             m = repo.func(f"{PKG}.{modn}", f"{cls}.{meth}")
@@ -752,6 +759,83 @@ def _clamps(ctx: Ctx) -> None:
             okb = len(rs) == 1 and repo.const(m.module, rs[0].value) == want
             ctx.ob("D17.4", m, m.node, okb, f"{cls}.{meth}() == {want}",
                    construct=f"{cls}.{meth}", nontrivial=False)
+
+
+def _unit_by_paths(repo: Any, fi: FuncInfo) -> tuple[bool, str]:
+    from sa.pathinline import paths
+    from sa.srcmodel import fold_consts
+
+    def src(e: ast.AST) -> str:
+        return ast.unparse(e).replace(" ", "")
+
+    def num(e: ast.expr) -> float | None:
+        c = repo.const(fi.module, e)
+        return float(c) if isinstance(c, (int, float)) and not isinstance(
+            c, bool) else None
+
+    def bounds(t: ast.expr, truth: bool, tgt: str) -> tuple[bool, bool]:
+        """(lower >= 0 known, upper <= 1 known) for the expression `tgt`
+        from the outcome `truth` of the test `t`."""
+        if isinstance(t, ast.UnaryOp) and isinstance(t.op, ast.Not):
+            return bounds(t.operand, not truth, tgt)
+        if isinstance(t, ast.BoolOp):
+            parts = [bounds(v, truth, tgt) for v in t.values]
+            conj = (isinstance(t.op, ast.And) and truth) or (
+                isinstance(t.op, ast.Or) and not truth)
+            if conj:
+                return any(p[0] for p in parts), any(p[1] for p in parts)
+            return all(p[0] for p in parts), all(p[1] for p in parts)
+        if not (isinstance(t, ast.Compare) and len(t.ops) == 1):
+            return False, False
+        l_, r_, op = t.left, t.comparators[0], t.ops[0]
+        if src(r_) == tgt and num(l_) is not None:
+            flip = {ast.Lt: ast.Gt, ast.Gt: ast.Lt, ast.LtE: ast.GtE,
+                    ast.GtE: ast.LtE}
+            if type(op) not in flip:
+                return False, False
+            l_, r_, op = r_, l_, flip[type(op)]()
+        c = num(r_)
+        if src(l_) != tgt or c is None:
+            return False, False
+        kind = type(op)
+        if not truth:
+            neg = {ast.Lt: ast.GtE, ast.GtE: ast.Lt, ast.Gt: ast.LtE,
+                   ast.LtE: ast.Gt}
+            if kind not in neg:
+                return False, False
+            kind = neg[kind]
+        lo = kind in (ast.Gt, ast.GtE) and c >= 0.0
+        hi = kind in (ast.Lt, ast.LtE) and c <= 1.0
+        return lo, hi
+    try:
+        ps = [q for q in paths(func_body(fi)) if q.ended == "return"]
+    except ValueError:
+        return False, ": too many paths (cannot normalise)"
+    if not ps:
+        return False, ""
+    for q in ps:
+        ev = next((e for e in reversed(q.events) if e.kind == "return"),
+                  None)
+        v = ev.value if ev is not None else None
+        if v is None:
+            return False, " (a path returns nothing)"
+        v = fold_consts(repo, fi.module, v)
+        c = num(v)
+        if c is not None:
+            if 0.0 <= c <= 1.0:
+                continue
+            return False, f" (the constant {c})"
+        if _is_unit_clamp(repo, fi, v):
+            continue
+        tgt = src(v)
+        lo = hi = False
+        for t, tr in q.guards:
+            b_ = bounds(fold_consts(repo, fi.module, t), tr, tgt)
+            lo, hi = lo or b_[0], hi or b_[1]
+        if not (lo and hi):
+            return False, (f": `{ast.unparse(v)[:80]}` is returned on a "
+                           "path whose tests do not confine it to [0, 1]")
+    return True, ""
 
 
 def _is_unit_clamp(repo: Any, fi: FuncInfo, e: ast.expr | None) -> bool:
@@ -1669,6 +1753,27 @@ def _zero_on_template(ctx: Ctx) -> None:
                 other = [src(a) for a in v.args if src(a) != tg.id]
                 if len(other) == 1:
                     fold[tg.id] = (src(v.func), col_of.get(other[0], "?"))
+        if isinstance(s, ast.Assign) and isinstance(
+                s.targets[0], ast.Name) and isinstance(
+                s.value, ast.IfExp) and isinstance(
+                s.value.test, ast.Compare) and len(
+                s.value.test.ops) == 1:
+            # m = v if v < m else m   (and mirrored / swapped spellings)
+            m_ = s.targets[0].id
+            b_, o_ = src(s.value.body), src(s.value.orelse)
+            l_, r_ = src(s.value.test.left), src(
+                s.value.test.comparators[0])
+            op_ = s.value.test.ops[0]
+            if {b_, o_} == {l_, r_} and m_ in (b_, o_) and isinstance(
+                    op_, (ast.Lt, ast.LtE, ast.Gt, ast.GtE)):
+                v_ = b_ if o_ == m_ else o_
+                less = isinstance(op_, (ast.Lt, ast.LtE))
+                # the branch taken when the test holds is `b_`
+                picks_smaller = (less and b_ == l_) or (
+                    not less and b_ == r_)
+                if v_ in col_of:
+                    fold[m_] = ("min" if picks_smaller else "max",
+                                col_of[v_])
         fi_ = fold_if(s)
         if fi_ is not None and fi_[2] in col_of:
             fold[fi_[0]] = (fi_[1], col_of[fi_[2]])
@@ -1685,6 +1790,9 @@ def _zero_on_template(ctx: Ctx) -> None:
     # initial values of the folds must be neutral
     for v, (kind, c) in fold.items():
         init = local.get(v, "")
+        # a start value held in a local (`w0 = space.bin_width`)
+        if init in local and local[init].startswith(SPD):
+            init = local[init]
         neutral = (kind == "max" and init == "0") or (
             kind == "min" and init in (SPD + "bin_width", SPD + "bin_height")
             and ("WIDTH" in c) == init.endswith("width"))
@@ -1789,6 +1897,12 @@ def _zero_on_template(ctx: Ctx) -> None:
                         f"`if {src(t)}: {src(c.body[0])}` is not a penalty "
                         "for leaving the template's range of that "
                         "dimension")
+    definite = [p_ for p_ in problems if "which is not neutral" in p_
+                or "not the same statistic" in p_]
+    if problems and not definite:
+        problems = ["the way Errors.evaluate accumulates its deviation "
+                    "terms is not recognised: " + "; ".join(
+                        dict.fromkeys(problems))[:600]]
     ctx.ob("D17.9", er, er.node, not problems,
            f"all {n_terms} deviation terms compare a statistic of the "
            "instance with the same statistic of the template (attributes, "
